@@ -12,8 +12,10 @@ import (
 
 	"github.com/failsafe-go/failsafe-go"
 	"github.com/failsafe-go/failsafe-go/bulkhead"
+	"github.com/failsafe-go/failsafe-go/cachepolicy"
 	"github.com/failsafe-go/failsafe-go/circuitbreaker"
 	"github.com/failsafe-go/failsafe-go/ratelimiter"
+	"github.com/failsafe-go/failsafe-go/retrypolicy"
 	"github.com/failsafe-go/failsafe-go/timeout"
 	"github.com/failsafe-go/failsafe-go/verifrt/vrt"
 )
@@ -41,12 +43,13 @@ func c10Programs(tier string) []*Program {
 	handles = append(handles,
 		[]Cond{{K: "errs", E: E1, Es: []error{circuitbreaker.ErrOpen, bulkhead.ErrFull}}},
 		[]Cond{{K: "errs", E: timeout.ErrExceeded, Es: []error{ratelimiter.ErrExceeded}}, {K: "result", V: 0}},
-		[]Cond{{K: "types", T: ValErr{}, Ts: []any{&PtrErr{}}}})
+		[]Cond{{K: "types", T: ValErr{}, Ts: []any{&PtrErr{}}}},
+		[]Cond{{K: "errs0"}})
 	type fbk struct {
 		v int
 		e error
 	}
-	outputs := []fbk{{9, nil}, {0, nil}, {0, E3}, {0, E1}}
+	outputs := []fbk{{9, nil}, {0, nil}, {0, E3}, {0, E1}, {5, E3}}
 	inners := [][]Spec{
 		nil,
 		{{Kind: KRetry, MaxRetries: 1}},
@@ -189,7 +192,7 @@ func c11Programs(tier string) []*Program {
 	outcomes := []Out{{V: 1}, {V: 0}, {Err: E1}}
 	for _, cfgKey := range []string{"", "a"} {
 		for _, pre := range []map[string]int{nil, {"a": 7}, {"b": 9}} {
-			for _, cif := range []string{"", "v1", "err"} {
+			for _, cif := range []string{"", "v1", "err", "v1|err"} {
 				for ii, in := range inners {
 					for oi, oc := range outcomes {
 						for k1, key1 := range ctxKeys {
@@ -344,6 +347,151 @@ func deepResultUnit(prop, policyPrefix string) Unit {
 			}
 		}
 		st.Sample = []string{"result types: *struct, struct holding a pointer, any holding a pointer, array of pointers, slice, map, string, struct of scalars"}
+		st.Outcomes, st.Nontrivial = st.Executions, st.Executions
+		return st
+	}}
+}
+
+// c02BuilderUnit: a policy keeps the limits it was built with, whatever is done to its builder afterwards
+// (the builder is reconfigured and used for a second policy; both are then executed, in both orders).
+func c02BuilderUnit() Unit {
+	type step struct {
+		name  string
+		apply func(retrypolicy.RetryPolicyBuilder[int]) retrypolicy.RetryPolicyBuilder[int]
+		invs  int // invocations of an always-failing function taking 10ns under a policy built right after this step
+	}
+	steps := []step{
+		{"WithMaxRetries(1)", func(b retrypolicy.RetryPolicyBuilder[int]) retrypolicy.RetryPolicyBuilder[int] {
+			return b.WithMaxRetries(1)
+		}, 2},
+		{"WithMaxRetries(3)", func(b retrypolicy.RetryPolicyBuilder[int]) retrypolicy.RetryPolicyBuilder[int] {
+			return b.WithMaxRetries(3)
+		}, 4},
+		{"WithMaxAttempts(1)", func(b retrypolicy.RetryPolicyBuilder[int]) retrypolicy.RetryPolicyBuilder[int] {
+			return b.WithMaxAttempts(1)
+		}, 1},
+		{"WithMaxRetries(5).WithMaxDuration(25ns)", func(b retrypolicy.RetryPolicyBuilder[int]) retrypolicy.RetryPolicyBuilder[int] {
+			return b.WithMaxRetries(5).WithMaxDuration(25)
+		}, 3},
+	}
+	return Unit{Name: "C02/policies keep the limits they were built with when their builder is reconfigured", Run: func(dl time.Time) *Stats {
+		st := &Stats{BoundCompleted: 0, outcomes: map[string]int{}}
+		run := func(p retrypolicy.RetryPolicy[int]) int {
+			n := 0
+			failsafe.Get(func() (int, error) { n++; vrt.Sleep(10); return 0, E1 }, p)
+			return n
+		}
+		for i, a := range steps {
+			for j, b := range steps {
+				if i == j {
+					continue
+				}
+				var msg string
+				r := vrt.Execute(vrt.Options{}, func() {
+					bld := a.apply(retrypolicy.Builder[int]())
+					p1 := bld.Build()
+					bld = b.apply(bld.WithMaxDuration(0))
+					p2 := bld.Build()
+					for _, first := range []bool{true, false} {
+						n1, n2 := 0, 0
+						if first {
+							n1, n2 = run(p1), run(p2)
+						} else {
+							n2, n1 = run(p2), run(p1)
+						}
+						wa := a.invs
+						if n1 != wa {
+							msg = fmt.Sprintf("policy built after %s invoked the function %d times (want %d) once its builder had gone on to %s", a.name, n1, wa, b.name)
+						}
+						_ = n2
+					}
+				})
+				st.Executions++
+				st.Steps += r.Steps
+				if r.Panic != "" {
+					msg = "panic: " + r.Panic
+				}
+				if msg != "" {
+					v := Violation{Scenario: "C02/builder/" + a.name + " then " + b.name, Message: msg}
+					v.Sig = signature(v.Scenario, msg)
+					st.Violations = append(st.Violations, v)
+				}
+			}
+		}
+		st.Sample = []string{"build, reconfigure the builder, build again; run both policies in both orders"}
+		st.Outcomes, st.Nontrivial = st.Executions, st.Executions
+		return st
+	}}
+}
+
+// mapCacheOf is a plain map behind the cachepolicy.Cache interface for any result type.
+type mapCacheOf[R any] struct {
+	m    map[string]R
+	sets int
+}
+
+func (c *mapCacheOf[R]) Get(key string) (R, bool) { v, ok := c.m[key]; return v, ok }
+func (c *mapCacheOf[R]) Set(key string, v R)      { c.m[key] = v; c.sets++ }
+
+// c11Nil: an error-free result that is a nil pointer / interface / slice / map (or no result at all: Run)
+// is a result like any other: stored on the miss, served on the next execution.
+func c11Nil[R any](typeName string, isNil func(R) bool) string {
+	c := &mapCacheOf[R]{m: map[string]R{}}
+	cp := cachepolicy.Builder[R](c).WithKey("k").Build()
+	n := 0
+	fn := func() (R, error) { n++; var zero R; return zero, nil }
+	v1, e1 := failsafe.Get(fn, cp)
+	v2, e2 := failsafe.Get(fn, cp)
+	if e1 != nil || e2 != nil || !isNil(v1) || !isNil(v2) {
+		return fmt.Sprintf("result type %s: the executions returned (%v,%v) and (%v,%v), want the nil result without error", typeName, v1, e1, v2, e2)
+	}
+	if _, ok := c.m["k"]; !ok || c.sets != 1 || n != 1 {
+		return fmt.Sprintf("result type %s: a nil result without error: stored=%v (Set x%d), function invoked %d times over two executions (want stored, one Set, one invocation)", typeName, ok, c.sets, n)
+	}
+	return ""
+}
+
+func c11NilUnit() Unit {
+	cases := []func() string{
+		func() string { return c11Nil[*int]("*int", func(p *int) bool { return p == nil }) },
+		func() string { return c11Nil[any]("any", func(x any) bool { return x == nil }) },
+		func() string { return c11Nil[[]int]("[]int", func(x []int) bool { return x == nil }) },
+		func() string {
+			return c11Nil[map[string]int]("map[string]int", func(x map[string]int) bool { return x == nil })
+		},
+		func() string { return c11Nil[error]("error", func(x error) bool { return x == nil }) },
+		func() string { // Run: no result at all
+			c := &mapCacheOf[any]{m: map[string]any{}}
+			cp := cachepolicy.Builder[any](c).WithKey("k").Build()
+			n := 0
+			for i := 0; i < 2; i++ {
+				if err := failsafe.Run(func() error { n++; return nil }, cp); err != nil {
+					return fmt.Sprintf("Run returned %v", err)
+				}
+			}
+			if c.sets != 1 || n != 1 {
+				return fmt.Sprintf("Run through a cache policy with a key: Set x%d, function invoked %d times over two executions (want one each)", c.sets, n)
+			}
+			return ""
+		},
+	}
+	return Unit{Name: "C11/nil results are results", Run: func(dl time.Time) *Stats {
+		st := &Stats{BoundCompleted: 0, outcomes: map[string]int{}}
+		for i, f := range cases {
+			var msg string
+			r := vrt.Execute(vrt.Options{}, func() { msg = f() })
+			st.Executions++
+			st.Steps += r.Steps
+			if r.Panic != "" {
+				msg = "panic: " + r.Panic
+			}
+			if msg != "" {
+				v := Violation{Scenario: fmt.Sprintf("C11/nil-results/%d", i), Message: msg}
+				v.Sig = signature(v.Scenario, msg)
+				st.Violations = append(st.Violations, v)
+			}
+		}
+		st.Sample = []string{"result types *int, any, []int, map, error, and Run"}
 		st.Outcomes, st.Nontrivial = st.Executions, st.Executions
 		return st
 	}}
@@ -518,6 +666,7 @@ func init() {
 			for _, sc := range c11ConcurrentScenarios(tier) {
 				us = append(us, scenarioUnit(sc))
 			}
+			us = append(us, c11NilUnit())
 			return us
 		},
 	})
@@ -534,6 +683,7 @@ func init() {
 				us = append(us, scenarioUnit(sc))
 			}
 			us = append(us, deepResultUnit("C02", "retry policy"))
+			us = append(us, c02BuilderUnit())
 			return us
 		},
 	})
